@@ -95,6 +95,27 @@ def shared_delay(rng):
     return ['scenario', ['debug', 1], ['start', rng.choice([0, 0, 1])], ['flags', 1], ['locks', 0], ['roots'] + roots]
 
 
+def shared_date(rng):
+    """one `time >= t` / `time == t` object kept in a variable: waits on it are given up early (an enclosing deadline fires) and begun
+    again, by the same and by other activities, before and after the date - every wait that begins before t ends exactly at t"""
+    T = rng.choice([4, 5, 6, F(11, 2)])
+    kind = rng.choice(['after', 'after', 'moment'])
+    roots = [['prog', ['defcond', 0, [kind, T]],
+              ['scope', 9, ['delay', rng.choice([1, 2, 3])], ['await', ['ref', 0]], ['now']], ['now'], ['await', ['ref', 0]], ['now']]]
+    for i in range(rng.randint(1, 3)):
+        prog = [['sleep', rng.choice([0, F(1, 2), 1, 2, 3])]]
+        for _ in range(rng.randint(1, 2)):
+            r = rng.random()
+            if r < 0.5:
+                prog += [['scope', 10 + i, ['delay', rng.choice([F(1, 2), 1, F(3, 2)])], ['await', ['ref', 0]], ['now']], ['now']]
+            else:
+                prog += [['sleep', rng.choice([F(1, 2), 1])], ['now']]
+        if kind == 'after' or rng.random() < 0.7:
+            prog += [['await', ['ref', 0]], ['now']]
+        roots.append(['prog'] + prog)
+    return ['scenario', ['debug', 1], ['start', rng.choice([0, 0, 1])], ['flags', 1], ['locks', 0], ['roots'] + roots]
+
+
 def run(tier, seed, drv):
     from common import rng_for
     st = msuite.Suite(PID, drv, 'C01', TAGS)
@@ -112,7 +133,7 @@ def run(tier, seed, drv):
         elif i % 8 == 1:
             st.check(crowd_scenario(rng), nontrivial=nontrivial, judge_extra=[('C07', 'user-errors')])
         elif i % 8 == 5:
-            st.check(shared_delay(rng), nontrivial=nontrivial, judge_extra=[('C07', 'user-errors')])
+            st.check((shared_delay if i % 16 == 5 else shared_date)(rng), nontrivial=nontrivial, judge_extra=[('C07', 'user-errors')])
         elif i % 8 == 6:
             # the same kind of program far from the origin of the clock (dates near 2**34)
             st.check(gen.shift_scenario(time_scenario(rng), 2 ** 34), nontrivial=nontrivial, judge_extra=[('C07', 'user-errors')])
